@@ -37,6 +37,15 @@ CHECKS = {
     "C17": dict(cat="exploration", tech="Go race detector (-race build of engine + harness) over run, delay, cancellation, overlapping-run and parallel parse/prepare workloads; reports de-duplicated by frame pair",
                 text="No data race with an engine frame was reported on the explored executions apart from the listed known finding (lazy default-value cache of the plugin SDK shared by overlapping runs).",
                 note="Only executed interleavings; detector history window is bounded.", ref="8/C17"),
+    "C10": dict(cat="exploration", tech="runtime monitoring: reference-model oracle on the prepared graph read through DAG() (expected graph derived from the program) plus enumerated single-point corruptions that must be rejected",
+                text="For every generated program the prepared graph (nodes, kinds, typed dependencies incl. group nodes of tags) equalled the graph implied by the text, and every enumerated single-point corruption (cycles through each field, dangling and ill-typed references/literals, missing/unknown keys) was rejected by Prepare.",
+                note="Trusted: vlib/dagref.py (Appendix A). Programs and corruption kinds are the generated ones only.", ref="8/C10"),
+    "C11": dict(cat="exploration", tech="runtime monitoring: child-process crash/stall oracle over enumerated structural YAML corruptions, sub-workflow file trees on disk, input documents and seeded byte mutations through engine.Parse/Run",
+                text="None of the explored workflow / sub-workflow / input files crashed, overflowed the stack or stalled the engine entry point; sub-workflow trees were found or reported missing as expected.",
+                note="Trusted: child exit classification and a 45 s watchdog. Byte mutations are seeded samples; native coverage-guided fuzzing is not part of the verdict.", ref="8/C11"),
+    "C16": dict(cat="exploration", tech="runtime monitoring: canonical-form equality monitor over 30+ repeated preparations per text in one process and over key-permuted / consistently renamed variants",
+                text="All repeated preparations of each explored text gave one verdict and one canonical form (DAG, output schemas, namespaces up to generated ids); permuted and renamed variants gave the same form modulo ordering and names.",
+                note="Map-iteration orders are whatever the Go runtime produced over the repetitions; generated ids are unified when comparing variants.", ref="8/C16"),
 }
 
 NOT_APPLICABLE = {}
